@@ -5,7 +5,7 @@ from vlib import *
 # allocation bound: from_padded_bits' fixed 32 MiB initial cap + thread-local tables, plus a per-input-byte factor
 ALLOC_C0 = 48 * 1024 * 1024
 ALLOC_K = 64 * 1024
-MS_MAX = 5000
+MS_MAX = 20000        # wall clock on a loaded machine: the bound is there for hangs, not for slowness
 
 def judge_one(name, r, nbytes):
     if r["out"] == "panic":
